@@ -187,6 +187,14 @@ def run_batching(case):
   poison = set(case['poison'])
   what = f'{op}(fn_batch_size={f}, batch_size={b}) on rows {rows} in input batches of {B}, poison={sorted(poison)}, ignore_error={skip}'
   in_batches = [{'a': rows[i:i + B]} for i in range(0, len(rows), B)]
+  bad = sorted(set(i for i in (case.get('bad_batches') or []) if i < len(in_batches)))   # input batches whose read fails
+  if bad:
+    what += f', reads of input batches {bad} fail (ValueError)'
+    # with skipping, the rows of an unreadable input batch never reach the operator
+    live = [bt for i, bt in enumerate(in_batches) if i not in bad] if skip else in_batches
+    rows = [v for bt in live for v in bt['a']]
+  else:
+    live = in_batches
   fn = targets.FailOn('ident', sorted(poison), case['exc'])
 
   def colfn(x):
@@ -199,15 +207,22 @@ def run_batching(case):
     t = t.assign('x', fn=colfn, input_keys='a', fn_batch_size=f, batch_size=b)
   # reference: the function sees consecutive chunks of fn_batch_size rows (or the input batches when 0); a failing chunk is dropped
   fsz = f or B
-  chunks = [rows[i:i + fsz] for i in range(0, len(rows), fsz)] if f else [bt['a'] for bt in in_batches]
+  chunks = [rows[i:i + fsz] for i in range(0, len(rows), fsz)] if f else [bt['a'] for bt in live]
   first_fail = next((i for i, c in enumerate(chunks) if poison & set(c)), None)
   got, err = [], []
-  it = t.make().iterate(copy.deepcopy(in_batches), ignore_error=skip)
+  if bad:
+    from ml_metrics._src.chainables import io  # pylint: disable=g-import-not-at-top
+    it = t.make().iterate(io.SequenceDataSource(FailingSeq(copy.deepcopy(in_batches), bad, 'ValueError')), ignore_error=skip)
+  else:
+    it = t.make().iterate(copy.deepcopy(in_batches), ignore_error=skip)
   try:
     for x in it:
       got.append(x)
   except Exception as e:  # pylint: disable=broad-exception-caught
     err.append(e)
+  if bad and not skip:
+    check(bool(err), 'error-swallowed', f'{what}: a read fails but no error surfaced; delivered {got!r}')
+    return {'nontrivial': True, 'classes': [f'op-{op}', 'skip-False', 'unreadable-input-batch']}
   if skip or first_fail is None:
     check(not err, 'unexpected-error', lambda: f'{what}: raised {type(err[0]).__name__}: {err[0]}')
     kept = [c for c in chunks if not (poison & set(c))]
@@ -224,7 +239,7 @@ def run_batching(case):
       # and every input batch whose call did not fail must be delivered, in order.
       for g in got:
         check(list(g['x']) == [v + 100 for v in g['a']], 'assigned-value-misaligned-with-its-input', f'{what}: delivered {g!r}')
-      good = [bt['a'] for bt, c in zip(in_batches, chunks) if not (poison & set(c))]
+      good = [bt['a'] for bt, c in zip(live, chunks) if not (poison & set(c))]
       check([list(g['a']) for g in got] == good, 'skipping-loses-or-corrupts-elements',
             f'{what}: delivered input batches {[list(g["a"]) for g in got]}, want {good}')
   else:
@@ -234,7 +249,8 @@ def run_batching(case):
           f'{what}: raised {[type(c).__name__ for c in chain]}')
   nfail = sum(1 for c in chunks if poison & set(c))
   nt = nfail > 0 and first_fail is not None and first_fail < len(chunks) - 1
-  return {'nontrivial': nt, 'classes': [f'op-{op}', f'skip-{skip}'] + (['failing-chunk-not-last'] if nt else [])}
+  return {'nontrivial': nt or bool(bad), 'classes': [f'op-{op}', f'skip-{skip}'] + (['failing-chunk-not-last'] if nt else []) + (
+      ['unreadable-input-batch'] if bad else [])}
 
 
 def strat_batching(tier):
@@ -252,9 +268,12 @@ def strat_batching(tier):
       f = draw(st.sampled_from([0, 0, 1, 2, 3]))
       if draw(st.integers(0, 4)) == 0:
         b, f = 0, 0
-    return {'rows': rows, 'in_batch': B, 'fn_batch_size': f, 'batch_size': b, 'op': op, 'skip': draw(st.booleans()),
+    case = {'rows': rows, 'in_batch': B, 'fn_batch_size': f, 'batch_size': b, 'op': op, 'skip': draw(st.booleans()),
             'poison': draw(st.lists(st.integers(0, 9), max_size=3, unique=True)),
             'exc': draw(st.sampled_from(['ValueError', 'TypeError', 'InjectedError']))}
+    if nb and draw(st.integers(0, 3)) == 0:
+      case['bad_batches'] = draw(st.lists(st.integers(0, nb - 1), min_size=1, max_size=2))
+    return case
   return s()
 
 
@@ -380,7 +399,16 @@ def known_assign_batch_skip(scenario, case, v):
           and v.kind in ('skipping-loses-or-corrupts-elements', 'assigned-value-misaligned-with-its-input'))
 
 
-KNOWN = {'F-C12-assign-batch-skip': known_assign_batch_skip}
+def known_rebatch_ends_on_upstream_error(scenario, case, v):
+  """fn_batch_size / batch_size re-batching with error skipping: an unreadable input batch raises through the re-batching
+  generator of the operator and ends it; every later row is silently lost."""
+  return (scenario == 'batching_options' and case['skip'] and bool(case.get('bad_batches')) and (
+      case['fn_batch_size'] > 0 or (case['op'] == 'assign' and case['batch_size'] > 0))
+          and v.kind in ('skipping-loses-or-corrupts-elements', 'assigned-value-misaligned-with-its-input', 'wrong-batch-size'))
+
+
+KNOWN = {'F-C12-assign-batch-skip': known_assign_batch_skip,
+         'F-C12-rebatch-ends-on-upstream-error': known_rebatch_ends_on_upstream_error}
 
 SCENARIOS = [
     Scenario('operator_failures', run_ops, strategy=strat_ops, budget={'quick': 2500, 'thorough': 30000},
